@@ -1,6 +1,6 @@
 (** C17 — expired slates are refused and expired pending transactions are released.
-    Statements only (proofs: theories/LedgerProofs.v). *)
-From GW Require Import Ledger LedgerProofs.
+    Statements only (proofs: theories/LedgerProofs.v, theories/ExpireProofs.v). *)
+From GW Require Import Ledger LedgerProofs HeldProofs ExpireProofs.
 
 (** The TTL test, for all heights and cutoffs in N (hence all of u64): refused exactly when
     a cutoff is present (non-zero) and the wallet's last observed height has reached it. *)
@@ -76,4 +76,49 @@ Example C17_boundary :
   /\ map sv (w_outs (expire wL 7)) = map sv (w_outs w0)
   /\ snd (step (fst (step wL (OpRefresh 0 false 7 [((0, 0), None, 1)] []))) (OpReceive 9 5 7 None true))
      = [1%Z; 7%Z].
+Proof. vm_compute. repeat split; reflexivity. Qed.
+
+(** "... with any number of other pending transactions": in every state reachable by any
+    sequence of standard-flow operations, the expiry step of a refresh at height [tip] cancels
+    EVERY outstanding entry of the active account whose cutoff [tip] has reached — wherever it
+    stands among the other pending entries — and no output of the account stays reserved for it
+    ([due tip t]: the entry carries a cutoff e with e <= tip; [cancelled t]: the same entry with
+    its type turned into the cancelled one). *)
+Theorem C17_refresh_cancels_every_due_entry : forall ops tip t,
+  forallb std_op ops = true ->
+  let w := run empty_wallet ops in
+  In t (w_log w) -> t_parent t = w_active w -> outstanding t = true -> due tip t = true ->
+  get_tx (w_log (expire w tip)) (t_parent t) (t_id t) = Some (cancelled t)
+  /\ forall o, In o (w_outs (expire w tip)) -> r_root o = w_active w -> r_tx o = Some (t_id t) ->
+               r_status o <> Locked.
+Proof. exact expire_complete_reachable. Qed.
+Print Assumptions C17_refresh_cancels_every_due_entry.
+
+(** ... and is exact: an entry of another account, an entry that is not outstanding (confirmed,
+    cancelled, coinbase), one without a cutoff or whose cutoff lies ahead is left as it is. *)
+Theorem C17_refresh_cancels_nothing_else : forall ops tip t,
+  forallb std_op ops = true ->
+  let w := run empty_wallet ops in
+  In t (w_log w) ->
+  (t_parent t <> w_active w \/ outstanding t = false \/ due tip t = false) ->
+  get_tx (w_log (expire w tip)) (t_parent t) (t_id t) = Some t.
+Proof. exact expire_exact_reachable. Qed.
+Print Assumptions C17_refresh_cancels_nothing_else.
+
+(** non-vacuity: two pending sends with cutoffs 7 and 9 and a third without one; at tip 8 the
+    expiry step cancels the first only, at tip 9 the first two, never the third. *)
+Example C17_several_pending :
+  let mine := fun w h => fst (step w (OpCoinbase 0 h None)) in
+  let w0 := fst (step (mine (mine (mine empty_wallet 1) 2) 3)
+                      (OpRefresh 0 false 8 [((0, 0), None, 1); ((0, 1), None, 2); ((0, 2), None, 3)] [])) in
+  let send := fun w s ttl =>
+    fst (step (fst (step w (OpInitSend s None (mkParams 1000000000 false 8 1 1 1 false 0) false)))
+              (OpLock s ttl 6 true)) in
+  let w3 := send (send (send w0 1 7) 2 9) 3 0 in
+  map t_type (filter (fun t => optN_eqb (t_slate t) (Some 1) || optN_eqb (t_slate t) (Some 2)
+                               || optN_eqb (t_slate t) (Some 3)) (w_log w3)) = [TSent; TSent; TSent]
+  /\ map t_type (filter (fun t => match t_slate t with Some _ => true | None => false end) (w_log (expire w3 8)))
+     = [TSentCancelled; TSent; TSent]
+  /\ map t_type (filter (fun t => match t_slate t with Some _ => true | None => false end) (w_log (expire w3 9)))
+     = [TSentCancelled; TSentCancelled; TSent].
 Proof. vm_compute. repeat split; reflexivity. Qed.
